@@ -33,6 +33,7 @@
 # POSSIBILITY OF SUCH DAMAGE.
 
 import os
+import sys
 
 from phonopy.interface.calculator import calculator_info, convert_crystal_structure
 
@@ -96,6 +97,7 @@ def run():
         _calc_check(args[3])
     except (RuntimeError, FileNotFoundError) as err:
         print("ERROR: %s" % err)
+        sys.exit(1)
 
     convert_crystal_structure(*args)
 
